@@ -537,7 +537,9 @@ func toInt(v any) (int, bool, bool) {
 
 		return int(i), true, true
 	case float32:
-		if v > math.MaxInt || v < math.MinInt {
+		// math.MaxInt is not a float: converted it is 2^63, one beyond the
+		// largest int, so the bound itself is out of range too
+		if v >= math.MaxInt || v < math.MinInt {
 			return 0, true, false
 		}
 
@@ -547,7 +549,7 @@ func toInt(v any) (int, bool, bool) {
 
 		return int(v), true, true
 	case float64:
-		if v > math.MaxInt || v < math.MinInt {
+		if v >= math.MaxInt || v < math.MinInt {
 			return 0, true, false
 		}
 
